@@ -191,7 +191,7 @@ class FullEngine(Engine):
                     and isinstance(inner.func.value, ast.Name) and inner.func.value.id == "dict" and len(inner.args) == 1):
                 def k(q, v):
                     s, ecn = self.iter_seq(q, v)
-                    return [(q, VSeq(T.dedup(s), ecn, "list"))]
+                    return [(q, VSeq(T.Dedup(s), ecn, "list"))]
                 return bind(self.eval(inner.args[0], p), k)
             raise Unsupported("starred list display")
         res = [(p, [])]
@@ -264,8 +264,22 @@ class FullEngine(Engine):
         raise Unsupported(what)
 
     def ev_BoolOp(self, e, p):
-        # value context: only boolean-valued uses are supported
-        return [(q, c if isinstance(c, VRaise) else VBool(c)) for (q, c) in self.eval_cond(e, p)]
+        # value context: `a or b` / `a and b` yield one of the operands
+        is_and = isinstance(e.op, ast.And)
+        out = []
+        pend = [(p, 0)]
+        while pend:
+            q, i = pend.pop()
+            for (r, v) in self.eval(e.values[i], q):
+                if isinstance(v, VRaise) or i == len(e.values) - 1:
+                    out.append((r, v))
+                    continue
+                for (r2, side) in self.fork(r, self.truth(v, r), f"boolv@{e.lineno}"):
+                    if side != is_and:
+                        out.append((r2, v))
+                    else:
+                        pend.append((r2, i + 1))
+        return out
 
     def ev_BinOp(self, e, p):
         def k1(q, a):
@@ -300,7 +314,7 @@ class FullEngine(Engine):
         return bind(self.eval(e.left, p), k1)
 
     def ref_of(self, v):
-        if isinstance(v, (VRef, VCallback)):
+        if isinstance(v, (VRef, VCallback, VAttrs)):
             return v.term
         if isinstance(v, (VList, VSet, VDict)):
             return v.ref
@@ -311,7 +325,9 @@ class FullEngine(Engine):
             negate = isinstance(op, (ast.IsNot, ast.NotEq))
             ident = isinstance(op, (ast.Is, ast.IsNot))
             ra, rb = self.ref_of(a), self.ref_of(b)
-            if ra is not None and rb is not None:
+            if isinstance(a, VIter) and is_none_const(b) and a.is_none is not None:
+                c = a.is_none
+            elif ra is not None and rb is not None:
                 opaque = (isinstance(a, VRef) and a.role == "opaque") or (isinstance(b, VRef) and b.role == "opaque")
                 if ident or not opaque:
                     c = T.eq(ra, rb)                       # identity (A4 for ==)
@@ -393,10 +409,14 @@ class FullEngine(Engine):
             return [(p, self.module_member(mod, attr))]
         if isinstance(recv, VCls):
             return self.load_class_attr(recv, attr, p)
-        if isinstance(recv, (VList, VSet, VDict, VOwned, VSeq, VGlobalDict, VStr, VOpaque)):
+        if isinstance(recv, (VList, VSet, VDict, VOwned, VSeq, VGlobalDict, VStr, VOpaque, VAttrs)):
             return [(p, VBound(recv, attr))]
         if isinstance(recv, VConst) and isinstance(recv.value, tuple) and recv.value[0] in ("memo", "dyndict", "pydict"):
             return [(p, VBound(recv, attr))]
+        if isinstance(recv, VConst) and recv.value == ("uuid4",) and attr == "int":
+            u = T.fresh("uuid", Int)         # A9: uuid4().int is an arbitrary positive integer
+            p.assume(u > 0)
+            return [(p, VInt(u))]
         if isinstance(recv, VCallback):
             raise Unsupported("attribute of callback")
         if not isinstance(recv, VRef):
@@ -576,7 +596,7 @@ class FullEngine(Engine):
             r = self.ref_of(v)
             if r is None:
                 if isinstance(v, VBool):
-                    r = T.fresh("boolobj", Ref)
+                    r = T.ite(v.term, T.PY_TRUE, T.PY_FALSE)
                 else:
                     raise Unsupported(f"store {type(v).__name__} to {attr}")
             p.st.write(attr, recv.term, r)
@@ -706,7 +726,8 @@ class FullEngine(Engine):
                 cases = [(z3.BoolVal(True), i.as_long())]
             else:
                 cases = [(i == 0, 0), (i == 1, 1)]
-                p.assume(z3.Or(i == 0, i == 1))
+                if self.feasible(p, z3.Not(z3.Or(i == 0, i == 1))):
+                    raise Unsupported("item assignment with an index not known to be 0 or 1")
             for (c, n) in cases:
                 for (q, side) in self.fork(p, c, f"setidx{n}"):
                     if not side:
@@ -844,6 +865,8 @@ class FullEngine(Engine):
         raise Unsupported(f"call of {type(fv).__name__}")
 
     def call_external(self, dotted, args, kw, p):
+        if dotted == "uuid.uuid4" and not args:
+            return [(p, VConst(("uuid4",)))]
         raise Unsupported(f"external call {dotted}")
 
     def bind_call_args(self, qualname, args, kw, skip_self=False):
@@ -905,12 +928,21 @@ class FullEngine(Engine):
             s, ecn = self.iter_seq(p, v)
             it = VIter(s, ecn or en.rstrip("?") or None, z3.BoolVal(False))
             return it
+        if ty == "attrs":
+            if isinstance(v, VAttrs):
+                return v
+            if is_none_const(v):
+                return VAttrs(NONE)
+            if isinstance(v, VConst) and isinstance(v.value, tuple) and v.value[0] == "pydict":
+                return self.attrs_from_literal(v.value[1], p)
+        if ty == "int" and is_none_const(v):
+            return VInt(z3.IntVal(0))        # `uid or ...`: None and 0 are interchangeable for this parameter
         if ty == "any" and not isinstance(v, VRef):
             r = self.ref_of(v)
             if r is not None:
                 return VRef(r, None, "opaque")
             if isinstance(v, VBool):
-                return VRef(T.fresh("boolobj", Ref), None, "opaque")
+                return VRef(T.ite(v.term, T.PY_TRUE, T.PY_FALSE), None, "opaque")
         return v
 
     def call_contract(self, qualname, args: dict, p: Path, positional_rest=False):
@@ -959,29 +991,7 @@ class FullEngine(Engine):
             q = p.copy()
             q.assume(o.cond)
             q.trail.append(f"[{qualname.split('.')[-1]}:{o.label or oi}]")
-            q.st = o.post.copy()
-            for (r, clsn) in o.fresh:
-                clsterm = self.ct.Other if clsn == "<container>" else (self.ct.c(clsn) if isinstance(clsn, str) else clsn)
-                kind = "container" if clsn == "<container>" else "obj"
-                q.assume(r != NONE)
-                q.assume(r != T.QA_INVALID)
-                q.assume(T.cls_of(r) == clsterm)
-                for (o2, _c, _k) in q.allocs:
-                    q.assume(r != o2)
-                for v in self.args.values():
-                    rr = self.ref_of(v)
-                    if rr is not None:
-                        q.assume(r != rr)
-                q.schemas.extend(self.freshness_schemas(r, p.st))
-                q.allocs.append((r, clsterm, kind))
-            for l in o.loose:
-                old = p.st._fs(l.fieldname)
-                q.st.fields[l.fieldname] = o.post._fs(l.fieldname)
-                q.st.havoc(l.fieldname)
-                cur = q.st._fs(l.fieldname)
-                q.schemas.extend(l.constraint(lambda *a, cur=cur: cur.read(*a), lambda *a, old=old: old.read(*a)))
-            for fct in o.facts:
-                q.assume(fct)
+            self.enter_outcome(q, o, p.st)
             if o.exc is not None:
                 out.append((q, VRaise(o.exc, f"from {qualname}")))
             else:
@@ -996,9 +1006,28 @@ class FullEngine(Engine):
 
     ghost_measure = None
 
+    def attrs_from_literal(self, items, p: Path):
+        """a dict display such as {"i": i} passed as attributes="""
+        a = T.fresh("attrs", Ref)
+        p.assume(a != NONE)
+        p.assume(T.ad_isdict(a))
+        p.assume(T.ad_len(a) == len(items))
+        for i, (k, v) in enumerate(items):
+            if not isinstance(k, VStr):
+                raise Unsupported("attributes literal key")
+            r = self.ref_of(v)
+            if r is None:
+                if isinstance(v, VInt):
+                    r = int_box(v.term)
+                else:
+                    raise Unsupported("attributes literal value")
+            p.assume(T.ad_key(a, z3.IntVal(i)) == k.term)
+            p.assume(T.ad_val(a, z3.IntVal(i)) == r)
+        return VAttrs(a)
+
     def typing_facts(self, prm: Param, v: V):
         ty = prm.ty
-        if ty in ("int", "bool", "str", "any") or ty.startswith("cb:") or ty.startswith("iter") or ty.startswith("dict") or ty.startswith("list:"):
+        if ty in ("int", "bool", "str", "any", "attrs") or ty.startswith("cb:") or ty.startswith("iter") or ty.startswith("dict") or ty.startswith("list:"):
             return []
         if ty.startswith("cls<="):
             if isinstance(v, VCls):
@@ -1014,12 +1043,18 @@ class FullEngine(Engine):
     def default_value(self, prm: Param):
         d = prm.default
         if d == "None":
+            if prm.ty == "attrs":
+                return VAttrs(NONE)
+            if prm.ty == "int":
+                return VInt(z3.IntVal(0))
             if prm.ty.startswith("cb:"):
                 return VCallback(NONE, prm.ty[3:])
             if prm.ty.startswith("iter"):
                 return VIter(T.EMPTY(), None, z3.BoolVal(True))
             return NONE_V
         if d in ("True", "False"):
+            if prm.ty == "any":
+                return VRef(T.PY_TRUE if d == "True" else T.PY_FALSE, None, "opaque")
             return VBool(z3.BoolVal(d == "True"))
         try:
             return VInt(z3.IntVal(int(d)))
@@ -1093,6 +1128,8 @@ class FullEngine(Engine):
             if name == "pop" and len(args) == 2 and isinstance(args[0], VStr):
                 p.st.write("dyn_has", (recv.value[1], args[0].term), z3.BoolVal(False))
                 return [(p, VOpaque("popped"))]
+        if isinstance(recv, VAttrs) and name == "items" and not args:
+            return [(p, VConst(("items", recv.term)))]
         if isinstance(recv, VDict) and name == "items":
             raise Unsupported("dict.items() of an argument dictionary")
         raise Unsupported(f"method {name} of {type(recv).__name__}")
@@ -1114,6 +1151,8 @@ class FullEngine(Engine):
         if name == "isinstance" and len(args) == 2:
             a, c = args
             if isinstance(c, VBuiltin) and c.name == "dict":
+                if isinstance(a, VAttrs):
+                    return [(p, VBool(T.ad_isdict(a.term)))]
                 if isinstance(a, VDict):
                     # an `attributes` argument: dict or not is a symbolic property of the argument
                     return [(p, VBool(z3.Bool(f"isdict({a.ref})")))]
